@@ -11,6 +11,7 @@ statement is the `nu = 1` part.  Property theorems only; helpers in Lemmas/NeoxL
 -/
 import KfacVerif.Lemmas.NeoxLayerL
 import KfacVerif.Lemmas.NeoxScriptL
+import KfacVerif.Lemmas.ResumeScriptL
 import KfacVerif.Props.C03
 
 namespace KV.C11
@@ -212,10 +213,8 @@ theorem load_restores_steps (c : NeoxS.Cfg) (s : St) (dir dir' fresh : Bool) (op
     factor reduction) and with no micro-batch counted, saving and loading into a fresh preconditioner,
     then continuing with any history of passes and steps, issues exactly the collectives of the
     uninterrupted run, preceded by those of the checkpoint itself.
-    Missing for the full statement (any step boundary of a bucketed run): the running communicator keeps
-    its (emptied) buckets in first-use order while a fresh one has none, so the proof needs the invariant
-    that every iteration uses the bucket keys in that same order; the correspondence check compares the
-    resumed scripts of bucketed runs with the model on every run instead. -/
+    (Kept as the state-level form for communicators that are literally fresh; the full statement for every
+    step boundary reached by a run, bucketed or not, is `resume_same_script` below.) -/
 theorem resume_same_script_partial (c : NeoxS.Cfg) (s : St) (dir : Bool) (ops : List Op)
     (hb : s.comm = { cap := c.cap, buckets := [] }) (hm : s.mini = 0)
     (h : ∀ op ∈ ops, op.isCkpt = false) :
@@ -223,6 +222,45 @@ theorem resume_same_script_partial (c : NeoxS.Cfg) (s : St) (dir : Bool) (ops : 
       (ops.foldl (apply c) (loadOp c dir true (saveOp c dir s))).acts =
         s.acts ++ ck ++ ((ops.foldl (apply c) s).acts.drop s.acts.length) := by
   exact resume_same_script_partial_l c s dir ops hb hm h
+
+/-- histories of training passes and steps only -/
+def NoCkpt (ops : List Op) : Prop := ∀ op ∈ ops, op.isCkpt = false
+
+/-- a step boundary: the last op is a step (so every bucket has been flushed and no micro-batch is
+    counted), or nothing has happened yet -/
+def AtBoundary (pre : List Op) : Prop := pre = [] ∨ pre.getLast? = some Op.step
+
+/-- **resuming is transparent for the communication script** (full statement): for every configuration
+    (bucketed or not), every history `pre` of passes and steps that ends at a step boundary, and every
+    continuation `ops` of passes and steps: saving, loading into a freshly constructed preconditioner and
+    continuing issues exactly the collectives of the uninterrupted run, with those of the checkpoint itself
+    in between.  (The running communicator keeps its emptied buckets in first-use order, the fresh one has
+    none; the proof shows that every factor-update iteration uses the bucket keys in one canonical order, so
+    the two communicators coincide again after the first such iteration and emit the same events before.) -/
+theorem resume_same_script (c : NeoxS.Cfg) (dir : Bool) (pre ops : List Op)
+    (hpre : NoCkpt pre) (hb : AtBoundary pre) (hops : NoCkpt ops) :
+    ∃ ck, (run c (pre ++ [Op.save dir, Op.load dir true])).acts = (run c pre).acts ++ ck ∧
+      (run c (pre ++ [Op.save dir, Op.load dir true] ++ ops)).acts =
+        (run c pre).acts ++ ck ++ ((run c (pre ++ ops)).acts.drop (run c pre).acts.length) := by
+  have hri : RI c (run c pre) := RI_run c pre hpre
+  have hbd : (∀ e ∈ (run c pre).comm.buckets, e.2 = none) ∧ (run c pre).mini = 0 := by
+    rcases hb with rfl | hb
+    · exact ⟨fun e he => by simp [run, St.init] at he, rfl⟩
+    · obtain ⟨pre', rfl⟩ := List.getLast?_eq_some_iff.1 hb
+      have e : run c (pre' ++ [Op.step]) = stepOp c (run c pre') := by
+        simp [run, List.foldl_append, apply]
+      rw [e]
+      exact ⟨stepOp_allnone c _, stepOp_mini c _⟩
+  have e1 : run c (pre ++ [Op.save dir, Op.load dir true]) =
+      loadOp c dir true (saveOp c dir (run c pre)) := by
+    simp [run, List.foldl_append, apply]
+  have e2 : run c (pre ++ [Op.save dir, Op.load dir true] ++ ops) =
+      ops.foldl (apply c) (loadOp c dir true (saveOp c dir (run c pre))) := by
+    simp [run, List.foldl_append, apply]
+  have e3 : run c (pre ++ ops) = ops.foldl (apply c) (run c pre) := by
+    simp [run, List.foldl_append]
+  rw [e1, e2, e3]
+  exact resume_same_script_state c (run c pre) dir ops hri hbd.1 hbd.2 hops
 
 /-- non-vacuity: a 2×2×2 topology with one column/row block per stage meets `NCfgOK` and its script
     is not empty -/
@@ -239,6 +277,13 @@ example : (run demoCfg [.train, .step, .save false, .load false true, .train, .s
 example : (run { demoCfg with bucketed := false } [.train, .step]).comm = { cap := demoCfg.cap, buckets := [] } ∧
     (run { demoCfg with bucketed := false } [.train, .step]).mini = 0 := by
   decide +kernel
+
+/-- the hypotheses of `resume_same_script` are met by ordinary bucketed histories -/
+example : NoCkpt [Op.train, .step, .train, .step] ∧ AtBoundary [Op.train, .step, .train, .step] ∧ demoCfg.bucketed = true := by
+  refine ⟨?_, Or.inr (by simp), rfl⟩
+  intro op h
+  simp only [List.mem_cons, List.not_mem_nil, or_false] at h
+  rcases h with rfl | rfl | rfl | rfl <;> rfl
 
 example : NCfgOK demoCfg ∧ (run demoCfg [.train, .step]).acts ≠ [] := by
   refine ⟨⟨⟨by decide, by decide, by decide⟩, by decide, ?_⟩, by decide +kernel⟩
